@@ -110,6 +110,13 @@ pub struct Side {
     pub close: Close,
     /// do not write (nor close) before the first byte or EOF from the peer was read
     pub wait_first: bool,
+    /// late reader: the first read is issued only this many rounds after the connection is up
+    #[serde(default)]
+    pub read_delay: u32,
+    /// sequential application: the first read is issued only when the own writer has finished
+    /// (all chunks accepted and the write side closed, or a write failed)
+    #[serde(default)]
+    pub read_after_write: bool,
 }
 
 impl Side {
@@ -121,12 +128,26 @@ impl Side {
     }
 }
 
+/// Through which call a UDP size probe is sent.
+#[derive(Clone, Copy, Debug, PartialEq, Eq, Serialize, Deserialize, Default)]
+pub enum UdpHow {
+    #[default]
+    SendTo,
+    TrySendTo,
+    /// `connect(dst)` first, then `send`
+    ConnSend,
+    /// `connect(dst)` first, then `try_send`
+    ConnTrySend,
+}
+
 #[derive(Clone, Copy, Debug, PartialEq, Eq, Serialize, Deserialize)]
 pub struct UdpOp {
     pub v6: bool,
     /// destination is the loopback address (else the other host / own address)
     pub lo: bool,
     pub size: u32,
+    #[serde(default)]
+    pub how: UdpHow,
 }
 
 /// Who moves the packets.
@@ -166,8 +187,16 @@ pub fn workload_ok(s: &[Side; 2]) -> bool {
     if s[0].wait_first && s[1].wait_first {
         return false;
     }
+    // a reader that waits for its own writer must have a peer that keeps reading, and a writer
+    // that does not in turn wait for that reader
+    if s[0].read_after_write && s[1].read_after_write {
+        return false;
+    }
     for x in 0..2 {
         let p = 1 - x;
+        if s[x].read_after_write && (s[x].wait_first || s[x].close == Close::AfterEof && s[p].close == Close::AfterEof) {
+            return false;
+        }
         // x waits for a byte or EOF from p: p must produce one without waiting for x's EOF
         if s[x].wait_first && s[p].total() == 0 && s[p].close == Close::AfterEof {
             return false;
@@ -302,6 +331,13 @@ pub struct Shared {
     pub obs: RefCell<Obs>,
     pub sides: [Side; 2],
     pub first_byte: [Gate; 2],
+    /// opened when the writer of the side has returned (finished or failed)
+    pub writer_done: [Gate; 2],
+    /// the wire has handed a FIN to this side
+    pub fin_delivered: [std::cell::Cell<bool>; 2],
+    pub round: std::cell::Cell<u32>,
+    /// round in which the exhaustion plan started to lose packets
+    pub hole_round: std::cell::Cell<Option<u32>>,
     pub spawner: Spawner,
     /// host of each side (own executor only)
     pub hosts: Option<[HostId; 2]>,
@@ -313,6 +349,36 @@ pub struct Shared {
 pub(super) const SIDE_NAME: [&str; 2] = ["client", "server"];
 
 impl Shared {
+    async fn sleep_rounds(&self, k: u32) {
+        if self.hosts.is_some() {
+            for _ in 0..k {
+                next_round().await
+            }
+        } else {
+            tokio::time::sleep(std::time::Duration::from_millis(k as u64)).await
+        }
+    }
+
+    /// The reader of `side` is about to issue its first read: which rare situations is it in?
+    fn on_first_read(&self, side: usize) {
+        let prog = &self.sides[side];
+        let mut o = self.obs.borrow_mut();
+        if prog.read_delay > 0 || prog.read_after_write {
+            o.probes.inc("late_reader_started");
+        }
+        if self.fin_delivered[side].get() {
+            o.probes.inc("first_read_after_peer_fin_was_delivered");
+            if o.errors.iter().any(|e| e.0 == side) {
+                o.probes.inc("first_read_after_peer_fin_and_own_write_error");
+            }
+            if let Some(h) = self.hole_round.get() {
+                if self.round.get() >= h + self.cfg.budget_rounds() {
+                    o.probes.inc("first_read_after_peer_fin_and_exhausted_budget");
+                }
+            }
+        }
+    }
+
     /// Let one round (own executor) resp. one fixture tick pass.
     async fn yield_round(&self) {
         if self.hosts.is_some() {
@@ -527,6 +593,13 @@ async fn read_some(r: &mut OwnedReadHalf, buf: &mut [u8]) -> io::Result<usize> {
 
 pub(super) async fn reader(sh: Rc<Shared>, side: usize, mut r: OwnedReadHalf) {
     let prog = sh.sides[side].clone();
+    if prog.read_after_write {
+        sh.writer_done[side].wait().await;
+    }
+    if prog.read_delay > 0 {
+        sh.sleep_rounds(prog.read_delay).await;
+    }
+    sh.on_first_read(side);
     let mut i = 0usize;
     loop {
         let sz = prog.reads[i % prog.reads.len()] as usize;
@@ -563,7 +636,12 @@ pub(super) async fn reader(sh: Rc<Shared>, side: usize, mut r: OwnedReadHalf) {
     drop(r);
 }
 
-pub(super) async fn writer(sh: Rc<Shared>, side: usize, mut w: OwnedWriteHalf) {
+pub(super) async fn writer(sh: Rc<Shared>, side: usize, w: OwnedWriteHalf) {
+    writer_body(&sh, side, w).await;
+    sh.writer_done[side].open();
+}
+
+async fn writer_body(sh: &Rc<Shared>, side: usize, mut w: OwnedWriteHalf) {
     let prog = sh.sides[side].clone();
     if prog.wait_first {
         sh.first_byte[side].wait().await;
